@@ -1297,8 +1297,14 @@ func ruleFindSecrets(r *Run, rule string) {
 		return true
 	})
 	// helpers in the same package reached from findSecrets
-	for _, e := range r.P.CallGraph().Callees(self) {
-		if h := r.P.Funcs[e.Callee]; h != nil && h.Pkg == fn.Pkg && h != fn && h.Decl.Body != nil {
+	helperReach := r.P.CallGraph().Reach([]string{self}, func(e CallEdge) bool { return pkgOfKey(e.Callee) == pkgOfKey(self) })
+	var helperKeys []string
+	for k := range helperReach {
+		helperKeys = append(helperKeys, k)
+	}
+	sort.Strings(helperKeys)
+	for _, hk := range helperKeys {
+		if h := r.P.Funcs[hk]; h != nil && h.Pkg == fn.Pkg && h != fn && h.Decl.Body != nil {
 			hinfo := h.Pkg.TypesInfo
 			ast.Inspect(h.Decl.Body, func(n ast.Node) bool {
 				switch x := n.(type) {
